@@ -14,7 +14,9 @@ def buildPure (w : World) (cfg : Cfg) (doomed : Bool) (sh : Shape) (tasks : List
 structure Outcome (b : Nat) (st : St) (res : Option HVal × St) (k : Nat) (pure : Option Obj) (total : Prop) : Prop where
   ev : Ev b st.cells.length st res.2
   ok : ∀ r, res.1 = some r → ∃ y, pure = some y ∧ denote res.2.cells k r = some y
-  err : res.1 = none → total → pure = none
+  /-- a failed run that stayed inside the modelled fragment (`unmod` not set: no `str` / `bytes` payload was iterated)
+  means the pure model rejects -/
+  err : res.1 = none → total → res.2.unmod = false → pure = none
 
 theorem exec_build_ref {w : World} {cfg : Cfg} {b W K : Nat} {okc : Call → Obj → Prop} {tot : Call → Prop}
     {rec : Rec} (hrec : HookOK b rec) (href : RecRef w cfg b W K okc tot rec) (fuel : Nat) (hf : K + W ≤ fuel)
@@ -80,13 +82,13 @@ theorem exec_build_ref {w : World} {cfg : Cfg} {b W K : Nat} {okc : Call → Obj
     cases r with
     | none =>
       simp only
-      intro _ htot; simp only [buildPure, hrt.2.2 rfl htot, Option.bind_none, ite_self]
+      intro _ htot hu; simp only [buildPure, hrt.2.2 rfl htot hu, Option.bind_none, ite_self]
     | some ys =>
       obtain ⟨ps, hps, hdl⟩ := hrt.2.1 ys rfl
       cases doomed with
       | true =>
         simp only [if_true, Heap.raise]
-        intro _ _; simp only [buildPure, if_true]
+        intro _ _ _; simp only [buildPure, if_true]
       | false =>
         simp only [Bool.false_eq_true, if_false, Heap.bind]
         have has := assemble_ref w fuel (K + W) hf sh ys ps st1 hdl
@@ -99,7 +101,7 @@ theorem exec_build_ref {w : World} {cfg : Cfg} {b W K : Nat} {okc : Call → Obj
         cases ca with
         | none =>
           simp only
-          intro _ _; simp only [buildPure, Bool.false_eq_true, if_false, hps, Option.bind_some, has.2 rfl]
+          intro _ _ _; simp only [buildPure, Bool.false_eq_true, if_false, hps, Option.bind_some, has.2 rfl]
         | some c =>
           obtain ⟨y, hy, hcd⟩ := has.1 c rfl
           have hal := alloc_den c sa (K + W) y hcd
@@ -116,13 +118,15 @@ theorem exec_leaf_ref {b : Nat} (w : World) (fuel : Nat) (rec : Rec) (o : Obj) (
 theorem exec_fail_ref {b : Nat} (w : World) (fuel : Nat) (rec : Rec) (st : St) (g : Good b st) (k : Nat)
     (total : Prop) : Outcome b st (exec w fuel rec .fail st) k none total := by
   unfold exec
-  exact ⟨Ev.refl g.le st, fun r h => by simp [Heap.raise] at h, fun _ _ => rfl⟩
+  exact ⟨Ev.refl g.le st, fun r h => by simp [Heap.raise] at h, fun _ _ _ => rfl⟩
 
+/-- a run that leaves the modelled fragment sets the ghost flag `unmod`: it says nothing about the pure model (whatever
+`pure` is) -/
 theorem exec_unmodelled_ref {b : Nat} (w : World) (fuel : Nat) (rec : Rec) (st : St) (g : Good b st) (k : Nat)
-    (total : Prop) : Outcome b st (exec w fuel rec .unmodelled st) k none total := by
+    {pure : Option Obj} (total : Prop) : Outcome b st (exec w fuel rec .unmodelled st) k pure total := by
   unfold exec
   exact ⟨⟨g.le, Nat.le_refl _, fun _ _ => rfl, fun _ h => h, fun _ h => Or.inl h, fun _ _ h => h,
-    fun h => ⟨h.rawB, h.edges⟩⟩, fun r h => by simp at h, fun _ _ => rfl⟩
+    fun h => ⟨h.rawB, h.edges⟩, fun _ => rfl⟩, fun r h => by simp at h, fun _ _ h => by simp at h⟩
 
 theorem exec_ident_ref {b : Nat} {rec : Rec} (hrec : HookOK b rec) (w : World) (fuel : Nat) (v : HVal) (st : St)
     (g : Good b st) (hv : ArgOld b v) (k : Nat) (o : Obj) (hden : denote st.cells k v = some o) (total : Prop) :
